@@ -2,7 +2,7 @@
 (* C15, code -> spec.  Validates records of operations executed on the real cffi against
    the clauses of TextIdeal (verdicts) and against the implementation model of Text.tla
    (divergences, informational).  One JSON file = a sequence of records
-     [k |-> "new",    W, decl, s, mem, str]            ffi.new('T[decl]', s) (decl = -1: 'T[]'), units after,
+     [k |-> "new",    W, decl, s, mem, str, exc]          ffi.new('T[decl]', s) (decl = -1: 'T[]'), units after,
                                                        ffi.string of the result
      [k |-> "assign", W, old, s, new, exc]             store s into an array holding `old'
      [k |-> "string", W, mem, isarr, maxlen, res, exc] ffi.string(view, maxlen)  (maxlen = -1: absent)
@@ -19,6 +19,7 @@ Recs == JsonDeserialize(IOEnv.TRACE_FILE)
 Sel(c, name) == IF c THEN <<>> ELSE <<name>>
 
 VNew(r) ==
+  IF r.exc # "" THEN <<"new.raised">> ELSE
   Sel(NewLenG(r.W, r.decl, r.s, r.mem), "new.length")
   \o Sel(UnitsWrittenG(r.W, r.s, r.mem), "new.units")
   \o Sel(TerminatorG(r.W, r.s, r.mem), IF r.W = 1 THEN "new.terminator:char" ELSE "new.terminator:wide")
@@ -48,7 +49,7 @@ Verdict(r) == CASE r.k = "new" -> VNew(r) [] r.k = "assign" -> VAssign(r)
 \* ---- the implementation model's prediction
 Pred(v, r) ==
   CASE r.k = "new" -> LET m == ImplNew(v, r.W, r.decl, r.s) IN
-                        r.mem = m.mem /\ r.str = ImplString(v, r.W, m.mem, TRUE, 0 - 1)
+                        r.exc = "" /\ r.mem = m.mem /\ r.str = ImplString(v, r.W, m.mem, TRUE, 0 - 1)
     [] r.k = "assign" -> LET m == ConvertArrayFromStr(v, r.W, Len(r.old), r.old, r.s) IN
                            r.new = m.mem /\ r.exc = (IF m.err = "none" THEN "" ELSE m.err)
     [] r.k = "string" -> r.exc = "" /\ r.res = ImplString(v, r.W, r.mem, r.isarr, r.maxlen)
